@@ -23,3 +23,11 @@ Definition parse_level_ref (m_stringToLevel : list (bytes * Z)) (lvl : bytes) (t
   | Some l => (l, None, tr_)
   | None => (0, Some tt, tr_ ++ [EvWarnUnknown lvl])
   end.
+
+(* Level.UnmarshalText: ParseLevel of the text; the receiver is written iff the name is known *)
+Definition unmarshal_text_ref (m_stringToLevel : list (bytes * Z)) (level : Z) (text : bytes) (tr_ : list lvl_event)
+  : option unit * Z * list lvl_event :=
+  match Level.parse_level (reg_of [] m_stringToLevel []) text with
+  | Some l => (None, l, tr_)
+  | None => (Some tt, level, tr_ ++ [EvWarnUnknown text])
+  end.
